@@ -358,6 +358,25 @@ func c10UnusableStore(r *hx.Run) {
 				}
 			}
 		}
+		// the unchanged configuration is applied again (any unrelated configuration change does that):
+		// the cache keeps working memory-only and keeps what it holds
+		for round := 0; round < 2; round++ {
+			w.apply(r)
+			for k := 0; k < 3; k++ {
+				uri := fmt.Sprintf("/c10u/%d/%d", ci, k)
+				res := w.Cl.Do(hx.Req{Addr: w.Addr, Host: "c10.example", URI: uri, Timeout: 8 * time.Second})
+				r.Eval(1)
+				r.Add("requests_after_reapplying_the_configuration_with_unusable_store", 1)
+				if res.Err != nil || res.Status != 200 {
+					r.Violate("request_failed_with_unusable_store", map[string]string{"store": kind, "after": "configuration_reapplied"}, fmt.Sprintf("after the unchanged configuration was applied again the key is answered status %d err %v (%.120s)", res.Status, res.Err, res.Raw), res.Brief(), cs)
+					break
+				}
+				if res.Label != "hit" {
+					r.Violate("memory_only_cache_lost_by_reload", map[string]string{"store": kind}, fmt.Sprintf("the cache whose store cannot be opened forgot a fresh entry when the unchanged configuration was applied again (label %q)", res.Label), res.Brief(), cs)
+					break
+				}
+			}
+		}
 		r.Distinct("unusable_store " + kind)
 		w.Farm.Close()
 	}
